@@ -248,6 +248,7 @@ func runC05(cx *Ctx, r *Report) {
 	// already-released rewards back on the books: recorded stakes + budgets then exceed
 	// the escrow and the last withdrawals fail
 	cx.lostUpdateRule(r, []string{"farm"}, 20)
+	cx.insufficientStrict(r, "farm")
 	r.requireCount("adjust-end-height", 1)
 	cx.rewardFormula(r)
 	r.requireCount("reward-formula", 1)
